@@ -44,6 +44,8 @@ class G:
         self.first_word = ws[0]; self.prev_word = ws[-1] if self.sink is None else None
         if self.sink is None: self.tokens += ws
         elif self.sink != 'ignore': self.sink += ws
+        if len(ws) > 1 and self.rng.random() < 0.1:          # part of the text in a CDATA section: character data like any other
+            return P.xml_text(ws[0] + ' ') + '<![CDATA[' + ' '.join(ws[1:]).replace(']]>', ']]]]><![CDATA[>') + ']]>'
         return P.xml_text(' '.join(ws))
     def title(self):
         old = self.sink; self.sink = 'ignore'; t = self.text(1); self.sink = old; return t      # an image title is not body text
@@ -76,6 +78,8 @@ class G:
         body = mk_list() if where == 'first' else ''                   # (generated in document order: the tokens are compared in order)
         body += ''.join('<text:p>%s</text:p>' % self.text() for _ in range(self.rng.choice([1, 1, 2, 3])))
         if where == 'last': body += mk_list()
+        if self.rng.random() < 0.15:
+            body += '<table:table table:name="n"><table:table-column/><table:table-row><table:table-cell office:value-type="string"><text:p>%s</text:p></table:table-cell></table:table-row></table:table>' % self.text(1)
         self.sink = old
         cit = self.rng.choice(['1', '1', '*', '2', 'i', ''])      # marks repeat, as they do across footnotes and endnotes
         return ('<text:note text:id="ftn%d" text:note-class="%s"><text:note-citation%s>%s</text:note-citation><text:note-body>%s</text:note-body></text:note>'
@@ -105,7 +109,10 @@ class G:
                     c += '<table:table table:name="%s" table:is-sub-table="true"><table:table-column/><table:table-row><table:table-cell office:value-type="string">%s</table:table-cell></table:table-row></table:table>' % (self.attr(), self.para())
                 return '<table:table-cell office:value-type="string">%s</table:table-cell>' % c
             row = lambda: '<table:table-row>%s</table:table-row>' % ''.join(cell() for _ in range(2))
-            if self.rng.random() < 0.3:                         # header rows and a row group
+            k_ = self.rng.random()
+            if k_ < 0.15:                                       # a row group next to a plain row
+                rows = '<table:table-row-group>%s</table:table-row-group>%s' % (row(), row())
+            elif k_ < 0.4:                                      # header rows and a row group
                 rows = '<table:table-header-rows>%s</table:table-header-rows><table:table-rows>%s</table:table-rows>' % (row(), ''.join(row() for _ in range(self.rng.randint(1, 2))))
             else:
                 rows = ''.join(row() for _ in range(self.rng.randint(1, 2)))
@@ -147,6 +154,8 @@ def make_doc(rng, kind='text', i=0):
              '<style:style style:name="T2" style:family="text"><style:text-properties style:text-position="%s"/></style:style><style:style style:name="T&lt;3" style:family="text"/>'
              '<text:list-style style:name="L1"><text:list-level-style-bullet text:level="1" text:bullet-char="•"/></text:list-style>'
              '<text:list-style style:name="WW8Num1.1"><text:list-level-style-number text:level="1" style:num-format="1"/><text:list-level-style-number text:level="2" style:num-format="a"/></text:list-style>') % (P.xml_attr(fam[0]), P.xml_attr(fam[1]), rng.choice(['super', 'sub', '33% 58%', '33.3% 58%', '-33%', 'super 58%', '0% 100%']))
+    if kind == 'text' and i % 4 == 1:
+        body = re.sub(r'(</text:p>|</text:h>|</text:list>|</table:table>)(?=<text:p|<text:h|<text:list|<table:table|$)', r'\1\n  ', body)      # as a pretty-printer writes it
     if kind == 'text':
         data = P.simple_package(body, autostyles=autos, meta=meta, extra_members=[('Pictures/p1.png', b'\x89PNG', 'image/png')],
                                 styles='<style:default-style style:family="paragraph"/><style:style style:name="Standard" style:family="paragraph"/>'
